@@ -99,7 +99,7 @@ Record occ := Occ {
   o_end : pos;               (* (end_lineno, end_col_offset) *)
   o_scopes : list nat;       (* ids of the enclosing def/class nodes (AST containment), outermost first *)
   o_target : bool;           (* yielded by parsing.iter_assignments(innermost enclosing def/class/module) *)
-  o_typevar : bool           (* in the `typevars` set (parsing.iter_typedefs; not modelled, taken as data) *)
+  o_typevar : bool           (* target of a type definition (parsing.iter_typedefs; not modelled, taken as data) *)
 }.
 
 Inductive dkind := KFunc | KClass.
@@ -192,10 +192,17 @@ Definition def_sub (k : skind) (preserve : list ident) (d : defn) : bool * ident
   | SFunc, KFunc => (false, rename_variable n false false)
   end.
 
-Definition occ_sub (k : skind) (o : occ) : bool * ident :=
+(* the `typevars` set: the targets found by parsing.iter_typedefs (data) and their uses in the module *)
+Definition in_typevars (m : modl) (o : occ) : bool :=
+  o_typevar o
+  || existsb (fun t => o_typevar t
+                       && existsb (fun u => Nat.eqb (o_id u) (o_id o)) (uses_of 0 (target_of_occ t) m))
+             (occs m).
+
+Definition occ_sub (k : skind) (m : modl) (o : occ) : bool * ident :=
   let n := o_name o in
   match k with
-  | SModule => (false, if o_typevar o then rclass n (is_private n) else rename_variable n true (is_private n))
+  | SModule => (false, if in_typevars m o then rclass n (is_private n) else rename_variable n true (is_private n))
   | SClass b => (b || is_dunder n, rename_variable n false (is_private n))
   | SFunc => (false, rename_variable n false false)
   end.
@@ -206,7 +213,7 @@ Definition scope_events (sc : nat) (k : skind) (preserve : list ident) (m : modl
                           item_events (target_of_def d) (d_id d) sc m keep sub
                      else []) (defs m)
   ++ flat_map (fun o => if o_target o && Nat.eqb (parent (o_scopes o)) sc
-                        then let '(keep, sub) := occ_sub k o in
+                        then let '(keep, sub) := occ_sub k m o in
                              item_events (target_of_occ o) (o_id o) sc m keep sub
                         else []) (occs m).
 
@@ -253,6 +260,14 @@ Definition mentions (m : modl) : list mention :=
 (* one pass of align_variable_names_with_convention: the (node, new name) pairs it yields *)
 Definition align (preserve : list ident) (m : modl) : list entry :=
   decide (imported m) (defined_names m) (mentions m) (group_events (all_events preserve m)) preserve.
+
+(* well-formedness of a module abstraction: node ids and scope ids are unique (checked on every
+   correspondence case; hypothesis of the theorems about `align`) *)
+Fixpoint nodup_nat (l : list nat) : bool :=
+  match l with [] => true | x :: t => negb (existsb (Nat.eqb x) t) && nodup_nat t end.
+Definition wf_modl (m : modl) : bool :=
+  nodup_nat (map o_id (occs m) ++ map d_id (defs m)) && nodup_nat (map d_scope (defs m))
+  && forallb (fun d => negb (Nat.eqb (d_scope d) 0)) (defs m).
 
 (* ------------------------------------------------------------------------------------------ *)
 (* Part C: generated names                                                                    *)
